@@ -84,6 +84,18 @@ def document(kind, coords, units, gt, spread, href, focus, shape, chain):
         defs = f'<{tag} id="t"{attrs}><stop offset="0" stop-color="white"/></{tag}><{tag} id="g" xlink:href="#t">{STOPS}</{tag}>'
     elif href == "stops":
         defs = f'<linearGradient id="t" x1="0.5" spreadMethod="repeat">{STOPS}</linearGradient><{tag} id="g" xlink:href="#t"{attrs}{"" if spread != "pad" else " spreadMethod=" + chr(34) + "pad" + chr(34)}/>'
+    elif href in ("chain3", "chain3own"):
+        # three levels, the *grandparent* supplies units / transform / spread (and the stops unless the leaf has its own);
+        # templates are defined before their users, as authoring tools emit them
+        a2 = ""
+        own = attrs
+        for key in (' gradientUnits="userSpaceOnUse"', f' gradientTransform="{g}"' if g else None, f' spreadMethod="{spread}"' if spread != "pad" else None):
+            if key and key in own:
+                own = own.replace(key, "")
+                a2 += key
+        leaf_stops = STOPS if href == "chain3own" else ""
+        t2_stops = '<stop offset="0" stop-color="white"/><stop offset="1" stop-color="black"/>' if href == "chain3own" else STOPS
+        defs = f'<{tag} id="t2"{a2}>{t2_stops}</{tag}><{tag} id="t1" xlink:href="#t2"/><{tag} id="g" xlink:href="#t1"{own}>{leaf_stops}</{tag}>'
     else:  # chain of two: g -> t1 (transform/units/spread) -> t2 (stops)
         a1 = ""
         own = attrs
@@ -177,13 +189,15 @@ def all_cases(tier):
     units = ["objectBoundingBox", "userSpaceOnUse"]
     gts = list(GT)
     if tier == "quick":
-        spreads, hrefs, foci, shapes, chains = ["pad", "reflect"], ["none", "attrs", "chain"], ["none", "fxfy", "fr"], ["rect", "path"], ["none", "translate", "rotscale", "groupmatrix"]
+        spreads, hrefs, foci, shapes, chains = ["pad", "reflect"], ["none", "attrs", "chain", "chain3", "chain3own"], ["none", "fxfy", "fr", "fxpct"], ["rect", "path"], ["none", "translate", "rotscale", "groupmatrix"]
     else:
-        spreads, hrefs, foci, shapes, chains = ["pad", "reflect", "repeat"], ["none", "attrs", "stops", "chain"], list(FOCUS), list(SHAPES), list(CHAINS)
+        spreads, hrefs, foci, shapes, chains = ["pad", "reflect", "repeat"], ["none", "attrs", "stops", "chain", "chain3", "chain3own"], list(FOCUS), list(SHAPES), list(CHAINS)
     for kind in kinds:
         fs = foci if kind == "radial" else ["none"]
         for c, u, g, sp, h, f, sh, ch in itertools.product(coords, units, gts, spreads, hrefs, fs, shapes, chains):
-            if tier == "quick" and sp == "reflect" and (h != "none" or ch == "none"):
+            if tier == "quick" and sp == "reflect" and (h not in ("none", "chain3") or ch == "none"):
+                continue
+            if tier == "quick" and h in ("chain3", "chain3own") and (c == "percent" or g in ("translate", "matrix")):
                 continue
             if tier == "quick" and sh == "path" and (g in ("translate",) or c == "percent"):
                 continue
